@@ -64,6 +64,10 @@ def deep_mutations(obj, path='', depth=0):
         elif isinstance(v, list):
             if v and hasattr(v[0], 'sorted_container_properties'):
                 yield from deep_mutations(v[0], p + '[0]', depth + 1)
+            elif v and _changed(v[0]) is not None:
+                def _set_item(lst=v, val=_changed(v[0])):
+                    lst[0] = val
+                yield p + '[0]=', _set_item
             if v:
                 def _append(lst=v):
                     lst.append(copy.deepcopy(lst[0]))
@@ -81,6 +85,11 @@ def deep_mutations(obj, path='', depth=0):
 
 
 # ------------------------------------------------------------------------------------------------
+OBSERVABLES = ('metrics_by_handle', 'waveform_by_handle', 'alert_by_handle', 'context_by_handle', 'component_by_handle',
+               'operation_by_handle', 'new_descriptors_by_handle', 'updated_descriptors_by_handle', 'deleted_descriptors_by_handle',
+               'deleted_states_by_handle', 'description_modifications')
+
+
 class Sink:
     """counts what reaches the subscribed consumer and what the provider mdib publishes."""
 
@@ -88,13 +97,24 @@ class Sink:
         self.world = world
         self.netloc = f'127.0.0.1:{consumer.vf_server.server_port}'
         self.results = []
+        self.observed = []   # (observable name, keys) of every non-empty *_by_handle dict the MDIB publishes
         from sdc11073 import observableproperties as properties
         properties.strongbind(world.mdib, transaction=self._on_tr)
+        for name in OBSERVABLES:
+            properties.strongbind(world.mdib, **{name: lambda value, _n=name: self._on_observable(_n, value)})
 
     def _on_tr(self, tr):
         # an empty TransactionResult (empty transaction) is not a published result
         if tr is not None and (tr.has_descriptor_updates or tr.all_states()):
             self.results.append(tr)
+
+    def _on_observable(self, name, value):
+        if value:
+            self.observed.append((name, value))
+
+    def published_count(self):
+        """number of things the MDIB told its observers (transaction results + *_by_handle observables)."""
+        return len(self.results) + len(self.observed)
 
     def wire_count(self):
         return sum(1 for e in self.world.network.log if e.netloc == self.netloc)
@@ -105,7 +125,7 @@ def _expect_untouched(ctx, world, sink, before, wire_before, results_before, key
     if single_key:  # one mechanism, one key (known finding): every symptom is reported under it
         diffs = snap_equal(before, after, keys=('version', 'descr', 'states', 'ctx'))
         if (diffs or before['hvl'] != after['hvl'] or before['sizes'] != after['sizes'] or after.get('index_problems')
-                or sink.wire_count() != wire_before or len(sink.results) != results_before):
+                or sink.wire_count() != wire_before or sink.published_count() != results_before):
             ctx.witness(key, what, {**detail, 'diff': diffs[:4], 'index_problems': after.get('index_problems', [])[:2]})
             return False, after
         return True, after
@@ -120,9 +140,10 @@ def _expect_untouched(ctx, world, sink, before, wire_before, results_before, key
     if after.get('index_problems'):
         ctx.witness(key + '.index', what + ' (lookups disagree with a scan afterwards)', {**detail, 'problems': after['index_problems'][:3]})
         bad = True
-    if sink.wire_count() != wire_before or len(sink.results) != results_before:
-        ctx.witness(key + '.report_sent', 'a report was sent / a transaction result published although the transaction did not commit',
-                    {**detail, 'wire_delta': sink.wire_count() - wire_before})
+    if sink.wire_count() != wire_before or sink.published_count() != results_before:
+        ctx.witness(key + '.report_sent', 'a report was sent / a transaction result or *_by_handle observable published although the transaction '
+                    'did not commit', {**detail, 'wire_delta': sink.wire_count() - wire_before,
+                                       'observables': [n for n, _ in sink.observed[-3:]]})
         bad = True
     return not bad, after
 
@@ -138,6 +159,7 @@ def _mk_world(mdib_file):
 def w_aborts(ctx: core.Ctx, arg):
     """(a)+(b)+(c): aborted / rejected transactions inside random histories."""
     rng = ctx.rng('aborts', arg['i'])
+    rng_mode = ctx.rng('aborts.mode', arg['i'])
     mdib_file = MDIB_FILES[arg['i'] % len(MDIB_FILES)]
     world, sink = _mk_world(mdib_file)
     mdib = world.mdib
@@ -148,19 +170,34 @@ def w_aborts(ctx: core.Ctx, arg):
     for step in range(arg['n']):
         op = mdibops.gen_op(rng, mdib, memo, weights)
         precommit = rng.random() < 0.1 and 'abort_at' not in op and op['op'] not in ('reject', 'empty', 'location')
+        error_flag = precommit and rng_mode.random() < 0.4
         if precommit:
-            def _raising(m, tr, _orig=orig_pre):
+            reached = []
+
+            def _raising(m, tr, _orig=orig_pre, _flag=error_flag, _reached=reached):
                 if callable(_orig):
                     _orig(m, tr)
+                _reached.append(1)
+                if _flag:   # the transaction is marked as failed: the library must not commit it ("transaction without updates")
+                    tr._error = True
+                    return
                 raise InjectedFault('pre_commit_handler')
             mdib.pre_commit_handler = _raising
         before = snap(mdib)
-        wire_before, results_before = sink.wire_count(), len(sink.results)
+        wire_before, results_before = sink.wire_count(), sink.published_count()
         ap = mdibops.apply_op(mdib, op, memo if not precommit else None)
         mdib.pre_commit_handler = orig_pre
         opk = op['op'] + ('.' + op['sub'] if op.get('sub') else '')
         detail = {'op': op, 'outcome': ap.outcome, 'mdib_file': mdib_file, 'step': step, 'exception': repr(ap.exception)[:200]}
-        if precommit:
+        if error_flag:
+            if not reached or ap.outcome != 'ok':
+                ctx.count('abort.error_flag_not_reached')
+                continue
+            ctx.count('abort.error_flag')
+            _expect_untouched(ctx, world, sink, before, wire_before, results_before, f'error_flag.{opk}',
+                              'the error flag of the transaction was set before the commit but the MDIB changed / a report was sent', detail)
+            ctx.case(('error_flag', opk, op.get('iface')))
+        elif precommit:
             ctx.count('abort.precommit_handler_raises')
             if ap.outcome != 'raised:InjectedFault':
                 ctx.count('abort.precommit_not_reached')
@@ -214,7 +251,7 @@ def w_crashpoints(ctx: core.Ctx, arg):
             handles = pool[:4]
             for j in range(len(handles) + 1):
                 before = snap(mdib)
-                wire_before, results_before = sink.wire_count(), len(sink.results)
+                wire_before, results_before = sink.wire_count(), sink.published_count()
                 r = random.Random(rng.randrange(1 << 30))
                 try:
                     with getattr(mdib, mdibops._TR[kind])() as mgr:
@@ -238,7 +275,142 @@ def w_crashpoints(ctx: core.Ctx, arg):
                                   'the transaction body raised (after deep mutation of the handed-out states) but the MDIB changed',
                                   {'kind': kind, 'iface': iface, 'crash_after_steps': j, 'handles': handles, 'mdib_file': mdib_file})
                 ctx.case(('crash', mdib_file, kind, iface, j))
+    for kind, steps in (('context', _context_body(mdib, cat, rng)), ('descriptor', _descriptor_body(mdib, cat, rng))):
+        for j in range(len(steps) + 1):
+            before = snap(mdib)
+            wire_before, results_before = sink.wire_count(), sink.published_count()
+            done = []
+            try:
+                with getattr(mdib, mdibops._TR[kind])() as mgr:
+                    for i, (name, step) in enumerate(steps):
+                        if i == j:
+                            raise mdibops.BodyAbort(j)
+                        step(mgr)
+                        done.append(name)
+                    raise mdibops.BodyAbort('end')
+            except mdibops.BodyAbort:
+                pass
+            ctx.count(f'crashpoint.{kind}')
+            _expect_untouched(ctx, world, sink, before, wire_before, results_before, f'abort.{kind}.step',
+                              f'the body of a {kind} transaction raised (after deep mutation of the handed-out objects) but the MDIB changed',
+                              {'kind': kind, 'steps_done': done, 'mdib_file': mdib_file})
+            ctx.case(('crash', mdib_file, kind, j))
+        # the complete body is acceptable to the library (otherwise the crash points above would not be crash points of a valid body)
+        _DEEP['on'] = False   # (the deep mutator writes values that are not schema-valid; they must not go onto the wire)
+        try:
+            with getattr(mdib, mdibops._TR[kind])() as mgr:
+                for _name, step in steps:
+                    step(mgr)
+            ctx.count(f'crashpoint.{kind}.full_body_commits')
+        except Exception as ex:  # noqa: BLE001
+            ctx.count(f'crashpoint.{kind}.full_body_raised.{type(ex).__name__}')
+        finally:
+            _DEEP['on'] = True
     world.stop()
+
+
+def _context_body(mdib, cat, rng):
+    """steps of a context-state transaction body that uses every call of the manager (both interfaces)."""
+    if len(cat['context']) < 2:
+        return []
+    dh, dh2 = cat['context'][:2]
+    for h, descr, assoc in (('cp_a', dh, False), ('cp_b', dh, False), ('cp_c', dh, False), ('cp_d', dh2, True)):
+        with mdib.context_state_transaction() as mgr:
+            st = mgr.mk_context_state(descr, h, set_associated=assoc)
+            mdibops.mutate_context_state(st, rng)
+            st.Identification = [mdib.data_model.pm_types.InstanceIdentifier(root='urn:cp', extension_string=h)]
+
+    def s_mk(mgr):
+        st = mgr.mk_context_state(dh, 'cp_new_1', set_associated=True)
+        mdibops.mutate_context_state(st, rng)
+
+    def s_get(mgr):
+        st = mgr.get_context_state('cp_a')
+        mdibops.mutate_context_state(st, rng)
+        _deep(st)
+
+    def s_entity_update(mgr):
+        ent = mdib.entities.by_handle(dh)
+        mdibops.mutate_context_state(ent.states['cp_b'], rng)
+        _deep(ent.states['cp_b'])
+        mgr.write_entity(ent, ['cp_b'])
+
+    def s_entity_new(mgr):
+        ent = mdib.entities.by_handle(dh)
+        st = ent.new_state('cp_new_2')
+        mdibops.mutate_context_state(st, rng)
+        mgr.write_entity(ent, ['cp_new_2'])
+
+    def s_entity_delete(mgr):
+        ent = mdib.entities.by_handle(dh)
+        del ent.states['cp_c']
+        mgr.write_entity(ent, ['cp_c'])
+
+    def s_disassociate(mgr):
+        mgr.disassociate_all(dh2)
+
+    def s_add_state(mgr):
+        st = mdib.data_model.mk_state_container(mdib.descriptions.handle.get_one(dh2))
+        st.Handle = 'cp_new_3'
+        mdibops.mutate_context_state(st, rng)
+        mgr.add_state(st)
+    return [('mk_context_state', s_mk), ('get_context_state', s_get), ('write_entity.update', s_entity_update),
+            ('write_entity.new', s_entity_new), ('write_entity.delete', s_entity_delete), ('disassociate_all', s_disassociate),
+            ('add_state', s_add_state)]
+
+
+def _descriptor_body(mdib, cat, rng):
+    """steps of a descriptor transaction body that uses every call of the manager (both interfaces)."""
+    from sdc11073.xml_types import pm_qnames as pm
+    if len(cat['leaf_metric']) < 3 or not cat['channel'] or not cat['alert']:
+        return []
+    m0, m1, m2 = cat['leaf_metric'][:3]
+    chan = cat['channel'][0]
+
+    def s_get_descriptor(mgr):
+        d = mgr.get_descriptor(m0)
+        mdibops.mutate_descriptor(d, rng)
+        _deep(d)
+
+    def s_get_state(mgr):
+        st = mgr.get_state(m0)
+        mdibops.mutate_state(st, rng)
+        _deep(st)
+
+    def s_add_with_state(mgr):
+        d = mdibops._new_numeric(mdib, 'cp_d1', chan, rng)
+        st = mdib.data_model.mk_state_container(d)
+        mdibops.mutate_state(st, rng)
+        mgr.add_descriptor(d, state_container=st)
+
+    def s_add_then_state(mgr):
+        d = mdibops._new_numeric(mdib, 'cp_d2', chan, rng)
+        mgr.add_descriptor(d)
+        st = mdib.data_model.mk_state_container(d)
+        mdibops.mutate_state(st, rng)
+        mgr.add_state(st)
+
+    def s_new_entity(mgr):
+        ent = mdib.entities.new_entity(pm.NumericMetricDescriptor, 'cp_d3', chan)
+        ent.descriptor.Type, ent.descriptor.Unit = mdibops._coded(rng), mdibops._coded(rng)
+        ent.descriptor.Resolution = Decimal('0.1')
+        ent.descriptor.MetricCategory = mdib.data_model.pm_types.MetricCategory.MEASUREMENT
+        ent.descriptor.MetricAvailability = mdib.data_model.pm_types.MetricAvailability.CONTINUOUS
+        mdibops.mutate_state(ent.state, rng)
+        mgr.write_entity(ent)
+
+    def s_write_existing(mgr):
+        ent = mdib.entities.by_handle(m1)
+        mdibops.mutate_descriptor(ent.descriptor, rng)
+        mdibops.mutate_state(ent.state, rng)
+        _deep(ent.state)
+        mgr.write_entity(ent)
+
+    def s_remove(mgr):
+        mgr.remove_descriptor(m2)
+    return [('get_descriptor', s_get_descriptor), ('get_state', s_get_state), ('add_descriptor+state', s_add_with_state),
+            ('add_descriptor,add_state', s_add_then_state), ('write_entity.new', s_new_entity), ('write_entity.existing', s_write_existing),
+            ('remove_descriptor', s_remove)]
 
 
 def w_rejected_caught(ctx: core.Ctx, arg):
@@ -257,6 +429,19 @@ def w_rejected_caught(ctx: core.Ctx, arg):
     def ent(kind, n=0):
         hs = cat[kind]
         return mdib.entities.by_handle(hs[n % len(hs)]) if hs else None
+
+    def new_ctx_state(descr_handle, handle):
+        st = mdib.data_model.mk_state_container(mdib.descriptions.handle.get_one(descr_handle))
+        st.Handle = handle
+        return st
+
+    def edited_ctx_entity(descr_handle, new=None):
+        e = mdib.entities.by_handle(descr_handle)
+        for st in e.states.values():
+            st.Identification = [mdib.data_model.pm_types.InstanceIdentifier(root='urn:rejected', extension_string=st.Handle)]
+        if new:
+            e.new_state(new).Identification = [mdib.data_model.pm_types.InstanceIdentifier(root='urn:rejected.new')]
+        return e
 
     def wrong_kind(kind):
         return next((k for k in ('metric', 'alert', 'component', 'operational') if k != kind and first[k]), None)
@@ -287,6 +472,14 @@ def w_rejected_caught(ctx: core.Ctx, arg):
             ('context', 'mk_context_state.handle_in_use', lambda mgr: mgr.mk_context_state(d, ctx_state)),
             ('context', 'write_entity.unknown_state', lambda mgr: mgr.write_entity(mdib.entities.by_handle(d), ['no.such.state'])),
             ('context', 'disassociate_all.nothing_associated', lambda mgr: mgr.disassociate_all('no.such.descriptor')),
+            ('context', 'add_state.handle_in_use', lambda mgr: mgr.add_state(new_ctx_state(d, f'rc_{d}'))),
+            ('context', 'add_state.not_a_context_state', lambda mgr: mgr.add_state(
+                mdib.data_model.mk_state_container(mdib.descriptions.handle.get_one(first['metric'])))),
+            # calls over SEVERAL states that the API rejects because of one of them: a rejected call has no effect, also not half of it
+            ('context', 'write_entity_partial.unknown_then_good', lambda mgr: mgr.write_entity(edited_ctx_entity(d), ['no.such.state', f'rc_{d}'])),
+            ('context', 'write_entity_partial.good_then_unknown', lambda mgr: mgr.write_entity(edited_ctx_entity(d), [f'rc_{d}', 'no.such.state'])),
+            ('context', 'write_entity_partial.new_then_unknown', lambda mgr: mgr.write_entity(edited_ctx_entity(d, new='rc_new'),
+                                                                                             ['rc_new', 'no.such.state'])),
         ]
     if first['channel']:
         plans += [
@@ -298,10 +491,14 @@ def w_rejected_caught(ctx: core.Ctx, arg):
             ('descriptor', 'get_state.descriptor_not_in_transaction', lambda mgr: mgr.get_state(first['metric'])),
             ('descriptor', 'add_state.descriptor_not_in_transaction', lambda mgr: mgr.add_state(
                 mdib.data_model.mk_state_container(mdib.descriptions.handle.get_one(first['metric'])))),
+            # add_descriptor gets a state that the API refuses: the descriptor must not stay registered either
+            ('descriptor', 'add_descriptor_partial.state_of_other_descriptor', lambda mgr: mgr.add_descriptor(
+                mdibops._new_numeric(mdib, 'rc_new_descr_1', first['channel'], random.Random(1)),
+                state_container=mdib.data_model.mk_state_container(mdib.descriptions.handle.get_one(first['metric'])))),
         ]
     for kind, manner, call in plans:
         before = snap(mdib)
-        wire_before, results_before = sink.wire_count(), len(sink.results)
+        wire_before, results_before = sink.wire_count(), sink.published_count()
         rejected = None
         try:
             with getattr(mdib, mdibops._TR[kind])() as mgr:
@@ -322,9 +519,17 @@ def w_rejected_caught(ctx: core.Ctx, arg):
         key = f'empty.{kind}' if rejected is None else f'rejected_caught.{kind}.{manner.split(".")[0]}'
         _expect_untouched(ctx, world, sink, before, wire_before, results_before, key,
                           'a transaction whose body did nothing / whose only call was rejected by the API changed the MDIB or sent a report',
-                          {'kind': kind, 'manner': manner, 'rejected_with': rejected, 'mdib_file': mdib_file})
+                          {'kind': kind, 'manner': manner, 'rejected_with': rejected, 'mdib_file': mdib_file},
+                          single_key='_partial.' in manner)   # one mechanism (call rejected half way), one key for all its symptoms
         ctx.case(('rejected_caught', mdib_file, kind, manner, rejected))
     world.stop()
+
+
+_DEEP = {'on': True}
+
+
+def _deep(obj):
+    return _run_all_mutations(obj) if _DEEP['on'] else 0
 
 
 def _run_all_mutations(obj):
@@ -354,7 +559,7 @@ def w_commit_failures(ctx: core.Ctx, arg):
 
     def attempt(key, what, fn, detail):
         before = snap(mdib)
-        wire_before, results_before = sink.wire_count(), len(sink.results)
+        wire_before, results_before = sink.wire_count(), sink.published_count()
         try:
             fn()
         except Exception as ex:  # noqa: BLE001
@@ -433,7 +638,7 @@ def w_commit_failures(ctx: core.Ctx, arg):
             counter['n'] = 0
             counter['fail_at'] = rng.randrange(1, total + 1)
             before = snap(mdib)
-            wire_before, results_before = sink.wire_count(), len(sink.results)
+            wire_before, results_before = sink.wire_count(), sink.published_count()
             ap = mdibops.apply_op(mdib, op2, None)
             if ap.outcome != 'raised:InjectedFault':
                 ctx.count('failpoint.not_reached')
